@@ -19,8 +19,9 @@ RECURSIVE AllP(_)
 AllP(n) == IF n = 0 THEN {<<>>} ELSE {Append(p, q) : p \in AllP(n - 1), q \in 0..(n - 1)}
 All(n) == {Mk(p) : p \in AllP(n)}
 
-TreesQ == All(3) \cup {Reorg5}
-TreesT == All(4) \cup {Reorg5}
+Trees3 == All(3) \cup {Reorg5}
+TreesQ == All(4) \cup {Reorg5}
+TreesT == All(5)
 TreesL == {Lin3, Fork3}
 OneLin == {Lin3}
 OneReorg == {Reorg5}
